@@ -331,6 +331,22 @@ static int HIread2write(bitrec_t *bitfile_rec)
     __CPROVER_ensures(__CPROVER_return_value == SUCCEED ==> bitfile_rec->max_offset == __CPROVER_old(bitfile_rec->max_offset))
     __CPROVER_ensures((__CPROVER_return_value == SUCCEED && GC.b < bitfile_rec->max_offset) ==> W_LOGICAL(bitfile_rec) == GC.bexp);
 
+/* Hbitread, POSITION accounting (read mode, enough bits left, -DBSW_POSONLY: the content clauses are off): after reading `count` bits
+   the bit position has advanced by `count`, the record still satisfies the read-mode invariant, and -- when the buffer had to be
+   refilled -- block_offset is the file offset of the block now buffered (old offset + size of the block LEFT behind), with the access
+   id parked right behind it.  RPOS is computed from block_offset, so a wrong block_offset after a refill breaks the position clause. */
+h4v_i64 g_rpos0; /* harness snapshot of RPOS at entry */
+#define RD_SYNC(r) ((r)->buf_read == BZ(r) && G.pos == (r)->block_offset + BZ(r))
+int Hbitread(int32 bitid, int count, uint32 *data)
+    __CPROVER_requires(GC.rec != NULL && bitid == GC.reg_id && BR_COMMON(GC.rec) && BIT_DOMAIN(GC.rec) && BR_R(GC.rec) && RD_SYNC(GC.rec))
+    __CPROVER_requires(G.len == GC.rec->max_offset && count >= 1 && count <= 32 && __CPROVER_is_fresh(data, sizeof(uint32)))
+    __CPROVER_requires(g_rpos0 == RPOS(GC.rec) && g_rpos0 + count <= 8 * (h4v_i64)GC.rec->max_offset)
+    __CPROVER_assigns(BSW_FRAME, *data)
+    __CPROVER_ensures(__CPROVER_return_value == FAIL || (__CPROVER_return_value >= 0 && __CPROVER_return_value <= count))
+    __CPROVER_ensures(!G.io_failed ==> __CPROVER_return_value == count)
+    __CPROVER_ensures(!G.io_failed ==> (BR_COMMON(GC.rec) && BR_R(GC.rec) && RD_SYNC(GC.rec) && RPOS(GC.rec) == g_rpos0 + count))
+    __CPROVER_ensures(GC.rec->max_offset == __CPROVER_old(GC.rec->max_offset) && GC.rec->mode == 'r');
+
 #ifdef H4V_NATIVE
 #include "h4v_native_wrap.h"
 #endif
@@ -507,4 +523,22 @@ h_read2write(void)
     GC.bexp = R_LOGICAL(r);
     int s   = HIread2write(r);
     H4V_CANARY("read2write end");
+}
+
+
+void
+h_bitread(void)
+{
+    bitrec_t *r = mk_rec();
+    H4V_ND(int, count);
+    uint32 *out = malloc(sizeof(uint32));
+    H4V_ASSUME(out != NULL);
+    H4V_ASSUME(r->mode == 'r');
+    int32 blk0 = r->block_offset;
+    g_rpos0    = RPOS(r);
+    int n      = Hbitread(GC.reg_id, count, out);
+    H4V_COVER(n == count && r->block_offset != blk0, "bitread: buffer refilled");
+    H4V_COVER(n == count && r->block_offset == blk0 && count > 8, "bitread: several bytes from the buffer");
+    H4V_COVER(G.io_failed, "bitread: I/O failure");
+    H4V_CANARY("bitread end");
 }
